@@ -77,6 +77,12 @@ def cases(spec_fn):
             else:
                 name, build, opts = item
             c.cases.append((name, build, opts))
+            h = opts.get('history')
+            if h:
+                from .factory import history_builder
+                o2 = dict((k, v) for k, v in opts.items() if k != 'history')
+                c.cases.append(('%s; after an earlier %s() call and re-assignment of %s' % (name, h['method'], ','.join(h['mutable'])),
+                                history_builder(build, h['method'], tuple(h['mutable'])), o2))
         return gen
     return deco
 
